@@ -614,3 +614,150 @@ func RSubFirst(c *core.Ctx) {
 
 // methods that themselves take the subtraction into account (delegating to one counts as looking at it)
 var subAware = map[string]bool{"CharIn": true, "charInSlow": true, "HasSubtraction": true, "IsMergeable": true, "Equals": true, "equals": true, "IsSingleton": true, "IsSingletonInverse": true, "Copy": true, "mapHashFill": true, "addCaseEquivalences": true, "String": true, "IsEmpty": true}
+
+// ---------------------------------------------------------------------------
+// R-RANGEFLUSH: a pending range start is consumed when it is flushed.
+//
+// While parsing `[a-…` scanCharSet holds the range start in chPrev with
+// inRange == true.  When what follows is not a range end (a shorthand such as
+// \d in ECMAScript mode, a subtraction …) the start and the '-' are added as
+// plain members.  From then on nothing is pending, so inRange has to be reset
+// in the same statement list; otherwise the next ordinary member is taken as
+// the end of a range that starts at the stale chPrev.
+// ---------------------------------------------------------------------------
+
+func RRangeFlush(c *core.Ctx) {
+	c.Rule("R-RANGEFLUSH", "in scanCharSet every statement list that adds the pending range start to the class (a call of an adding method with chPrev as argument) also resets inRange to false afterwards in the same list, so a flushed start is never reused as the start of a later range", 4)
+	p := c.P
+	syn := p.Pkg("syntax")
+	info := syn.TypesInfo
+	fd, _ := p.DeclOf(p.LookupFunc("syntax", "parser.scanCharSet"))
+	if fd == nil {
+		c.Anchor("syntax.parser.scanCharSet")
+		return
+	}
+	c.Visit("syntax.(*parser).scanCharSet")
+	var inRange, chPrev types.Object
+	ast.Inspect(fd.Body, func(n ast.Node) bool {
+		if id, ok := n.(*ast.Ident); ok {
+			if obj := info.Defs[id]; obj != nil {
+				switch id.Name {
+				case "inRange":
+					inRange = obj
+				case "chPrev":
+					chPrev = obj
+				}
+			}
+		}
+		return true
+	})
+	if inRange == nil || chPrev == nil {
+		c.Anchor("locals inRange / chPrev of scanCharSet")
+		return
+	}
+	n := 0
+	// all constant assignments to inRange, and the `if inRange {…}` branches
+	type asg struct {
+		pos token.Pos
+		val bool
+	}
+	var assigns []asg
+	var guards []*ast.IfStmt
+	ast.Inspect(fd.Body, func(x ast.Node) bool {
+		switch y := x.(type) {
+		case *ast.AssignStmt:
+			if len(y.Lhs) == 1 && len(y.Rhs) == 1 {
+				if id, ok := y.Lhs[0].(*ast.Ident); ok && info.ObjectOf(id) == inRange {
+					if tv, ok := info.Types[y.Rhs[0]]; ok && tv.Value != nil {
+						assigns = append(assigns, asg{y.Pos(), tv.Value.String() == "true"})
+					} else {
+						assigns = append(assigns, asg{y.Pos(), true}) // unknown value: treat as possibly true
+					}
+				}
+			}
+		case *ast.IfStmt:
+			if id, ok := ast.Unparen(y.Cond).(*ast.Ident); ok && info.ObjectOf(id) == inRange {
+				guards = append(guards, y)
+			}
+		}
+		return true
+	})
+	var visit func(list []ast.Stmt)
+	check := func(list []ast.Stmt) {
+		flushAt := -1
+		for i, st := range list {
+			es, ok := st.(*ast.ExprStmt)
+			if !ok {
+				continue
+			}
+			call, ok := es.X.(*ast.CallExpr)
+			if !ok {
+				continue
+			}
+			for _, a := range call.Args {
+				if id, ok := ast.Unparen(a).(*ast.Ident); ok && info.ObjectOf(id) == chPrev {
+					if flushAt < 0 {
+						flushAt = i
+					}
+				}
+			}
+		}
+		if flushAt < 0 {
+			return
+		}
+		n++
+		reset := false
+		for _, st := range list[flushAt+1:] {
+			if as, ok := st.(*ast.AssignStmt); ok && len(as.Lhs) == 1 && len(as.Rhs) == 1 {
+				if id, ok := as.Lhs[0].(*ast.Ident); ok && info.ObjectOf(id) == inRange {
+					if tv, ok := info.Types[as.Rhs[0]]; ok && tv.Value != nil && tv.Value.String() == "false" {
+						reset = true
+					}
+				}
+			}
+		}
+		if !reset {
+			// the other idiom: `if inRange { inRange = false; … flush … }` — reset first, inside the same guarded branch
+			fp := list[flushAt].Pos()
+			for _, g := range guards {
+				if g.Body.Pos() <= fp && fp < g.Body.End() {
+					lastFalse, lastTrue := token.NoPos, token.NoPos
+					for _, a := range assigns {
+						if a.pos > g.Body.Pos() && a.pos < fp {
+							if a.val {
+								lastTrue = a.pos
+							} else {
+								lastFalse = a.pos
+							}
+						}
+					}
+					if lastFalse != token.NoPos && lastFalse > lastTrue {
+						reset = true
+					}
+				}
+			}
+		}
+		c.Check(reset, fmt.Sprintf("scanCharSet / flush #%d of the pending range start resets inRange", n), list[flushAt].Pos(),
+			"chPrev is added to the class here but inRange stays true: the next plain member is read as the end of a range starting at the stale chPrev")
+	}
+	visit = func(list []ast.Stmt) {
+		check(list)
+		for _, st := range list {
+			ast.Inspect(st, func(x ast.Node) bool {
+				switch b := x.(type) {
+				case *ast.BlockStmt:
+					visit(b.List)
+					return false
+				case *ast.CaseClause:
+					visit(b.Body)
+					return false
+				}
+				return true
+			})
+		}
+	}
+	visit(fd.Body.List)
+	if n == 0 {
+		c.Anchor("statement lists that flush chPrev")
+	}
+}
